@@ -177,8 +177,8 @@ func runC18(c *Ctx) {
 			Barrier{Name: "os.Remove(tmp)", Instr: removes}, OnFalse("Rename err", CallTo(rename)))
 	}
 	allowedCreate := map[string]string{
-		"os.CreateTemp|(*" + pkg + ".BlockList).persist":        "temp file of the atomic replacement",
-		"os.Rename|(*" + pkg + ".BlockList).persist":            "the only writer of <dir>/local",
+		"os.CreateTemp|(*" + pkg + ".BlockList).persist":       "temp file of the atomic replacement",
+		"os.Rename|(*" + pkg + ".BlockList).persist":           "the only writer of <dir>/local",
 		"os.Create|(*" + pkg + ".BlockList).downloadBlocklist": "per-source remote list file (not the local list)",
 	}
 	usedCreate := map[string]bool{}
